@@ -23,13 +23,20 @@ func siblingBase(name string) string {
 
 // siblingExempt: (family, field) pairs where a variant legitimately does not read the flag, with the reason.
 var siblingExempt = map[string]string{
+	"strategy NFA|prefilterPartialCoverage": "since fix 1a675b8 a partial-coverage literal set never builds e.prefilter (R-GATE), so the test the span views still carry is redundant",
+	"strategy NFA|canMatchEmpty":            "the span views avoid the bounded backtracker for patterns that can match empty because its greedy semantics pick a different empty-match POSITION; whether a match exists is not affected, so isMatchNFA may use it",
 	"findIndicesDFA|prefilterPartialCoverage": "since fix 1a675b8 a partial-coverage literal set never builds e.prefilter (enforced by R-GATE at construction), so the flag test that only findIndicesDFA still carries is redundant, not a missing guard in its siblings",
+}
+
+// crossAPIExempt: flags that concern spans only, so the boolean view of a strategy need not read them.
+var crossAPIExempt = map[string]string{
+	"longest": "whether a match exists does not depend on the leftmost-first / leftmost-longest mode",
 }
 
 func init() {
 	core.Register(&core.Rule{
 		Name: "R-SIBLING",
-		Doc: "Sibling agreement on guard flags: the variants of one per-strategy helper of the meta engine (X, XAt, XAtWithState: the same algorithm at offset 0, at an offset, and with caller-provided state) must consult the same boolean fields of the Engine (match-mode, partial-coverage, run-skip-safety, can-match-empty ... flags). A flag that guards an operation in one variant and is not even read in another is a one-sided check: the unguarded variant performs the operation for patterns/modes where it is unsound, so FindAll/Count (which use the At/WithState variants) disagree with Find/Match. Necessary for C11 (all views agree) and C12 (configuration-independence).",
+		Doc: "Sibling agreement on guard flags: the variants of one per-strategy helper of the meta engine (X, XAt, XAtWithState: the same algorithm at offset 0, at an offset, and with caller-provided state) must consult the same boolean fields of the Engine (match-mode, partial-coverage, run-skip-safety, can-match-empty ... flags). A flag that guards an operation in one variant and is not even read in another is a one-sided check: the unguarded variant performs the operation for patterns/modes where it is unsound, so FindAll/Count (which use the At/WithState variants) disagree with Find/Match. The same holds across the API views of one strategy: a safety flag that every span view findIndices<X>[At][WithState] consults must be consulted by the boolean view isMatch<X> too (mode flags that concern spans only are exempt by name). Necessary for C11 (all views agree) and C12 (configuration-independence).",
 		Min: 20, NeedSSA: true,
 		Run: func(p *core.Prog) *core.RuleResult {
 			res := &core.RuleResult{}
@@ -124,7 +131,83 @@ func init() {
 					res.Obligations = append(res.Obligations, o)
 				}
 			}
-			res.Notes = append(res.Notes, fmt.Sprintf("sibling families of (*meta.Engine) helpers: %d", len(bases)))
+			// cross-API agreement: the boolean view (isMatch<X>) of a strategy skips candidates under the same safety flags
+			// as its zero-allocation span twins (findIndices<X>, ...At, ...AtWithState; the Match-returning find<X> helpers are an older, separate implementation and are not compared). Only flags that the isMatch variant or ALL span variants read are
+			// compared (mode flags such as longest concern spans only and are exempted by name below).
+			strat := map[string]map[string][]*ssa.Function{} // X -> api -> functions
+			for _, ms := range fams {
+				for _, m := range ms {
+					name := siblingBase(m.Name())
+					for _, pre := range []string{"isMatch", "findIndices"} {
+						if strings.HasPrefix(name, pre) && len(name) > len(pre) {
+							x := strings.TrimPrefix(name, pre)
+							if strat[x] == nil {
+								strat[x] = map[string][]*ssa.Function{}
+							}
+							api := "span"
+							if pre == "isMatch" {
+								api = "bool"
+							}
+							strat[x][api] = append(strat[x][api], m)
+							break
+						}
+					}
+				}
+			}
+			var xs []string
+			for x, m := range strat {
+				if len(m["bool"]) > 0 && len(m["span"]) > 0 {
+					xs = append(xs, x)
+				}
+			}
+			sort.Strings(xs)
+			for _, x := range xs {
+				boolReads := map[string]bool{}
+				for _, m := range strat[x]["bool"] {
+					for f := range reads(m) {
+						boolReads[f] = true
+					}
+				}
+				// flags read by every span variant that reads any flag at all
+				spanAll := map[string]int{}
+				nspan := 0
+				for _, m := range strat[x]["span"] {
+					r := reads(m)
+					if len(r) == 0 {
+						continue
+					}
+					nspan++
+					for f := range r {
+						spanAll[f]++
+					}
+				}
+				var flags []string
+				for f, n := range spanAll {
+					if n == nspan && nspan > 0 {
+						flags = append(flags, f)
+					}
+				}
+				sort.Strings(flags)
+				for _, f := range flags {
+					o := core.Obligation{Key: "R-SIBLING|strategy " + x + "|isMatch reads flag " + f, Pos: p.Pos(strat[x]["bool"][0].Pos()), Nontrivial: true}
+					switch {
+					case boolReads[f]:
+						o.Status = core.Discharged
+						o.Detail = "the boolean view consults e." + f + " like every span view of the strategy"
+					case crossAPIExempt[f] != "":
+						o.Status = core.Discharged
+						o.Detail = "exempt: " + crossAPIExempt[f]
+					case siblingExempt["strategy "+x+"|"+f] != "":
+						o.Status = core.Discharged
+						o.Detail = "exempt: " + siblingExempt["strategy "+x+"|"+f]
+					default:
+						o.Status = core.Violated
+						o.Detail = fmt.Sprintf("every span view of strategy %s consults e.%s but isMatch%s does not: Match can skip candidates (or take a shortcut) that Find does not, so Match and FindIndex disagree", x, f, x)
+					}
+					res.Obligations = append(res.Obligations, o)
+				}
+			}
+			res.Notes = append(res.Notes, fmt.Sprintf("sibling families of (*meta.Engine) helpers: %d; strategies with boolean and span views: %d", len(bases), len(xs)))
 			return res
 		},
 	})
